@@ -34,7 +34,7 @@ Section Scripts.
     prefix_b t s || match s with [] => false | _ :: s' => contains t s' end.
 
   Definition script_validate (line : str) : vresult :=
-    if contains [35; 35]%N line then VRError
+    if contains [35; 35]%N line || contains [35; 64]%N line then VRError      (* ## / #@: errors of two io::ErrorKinds *)
     else if contains [33; 33]%N line then VRInvalid (Some [32; 60; 45; 45; 32; 98; 97; 100]%N)
     else if contains [126; 126]%N line then VRInvalid (Some [])
     else if contains [63; 63]%N line then VRInvalid None
